@@ -102,6 +102,7 @@ impl Stats {
         self.add("fault.interrupted", f.interrupted);
         self.add("fault.chunked_calls", f.chunked_calls);
         self.add("fault.budget_trips", f.budget);
+        self.add("fault.position_moved_between_calls", f.repositioned);
     }
 }
 
